@@ -63,7 +63,8 @@ def build_input(out, spec, label="input"):
     except Exception as e:  # noqa
         out.inconclusive = f"{label}-construction-raised:{type(e).__name__}"
         return None
-    want = sorted(tuple(n) for n in spec.get("notes", []))
+    sh = spec.get("shift", 0)
+    want = sorted((n[0], n[1], n[2] + sh, n[3] + sh, n[4]) for n in spec.get("notes", []))
     if spec.get("double"):
         d1 = build.spec_events(spec)[1] // 2
         want = sorted(want + [(n[0], n[1], n[2] + d1, n[3] + d1, n[4]) for n in want])
